@@ -300,6 +300,7 @@ APPLY_FUNCS = {
 	"len": lambda vals: len(vals),
 	"nones": lambda vals: sum(1 for v in vals if v is None),
 	"join": lambda vals: "|".join(repr(v) for v in vals),
+	"drain": lambda vals: (tuple(vals), vals.clear())[0],   # consumes its input list: a later callback must still get fresh values
 }
 
 
@@ -448,7 +449,7 @@ def gen_csv_spec(rng, max_rows=6):
 		grid[0] = grid[0] + ["1"] * (ncols - len(grid[0]))
 	# a record that is a single empty cell is written by csv.writer as '""' (not a blank line) - keep as is
 	return {"op": "csv", "header": header if has_header else None, "grid": grid, "delimiter": delimiter,
-		"has_header": has_header, "ncols": ncols, "via": rng.choice(["fileobj", "fileobj", "path"])}
+		"has_header": has_header, "ncols": ncols, "via": rng.choice(["fileobj", "fileobj", "path"]), "pattern": pattern}
 
 
 def csv_text(spec):
